@@ -162,6 +162,15 @@ def property_checks(inp):
         A(("photons_per_band ~ pixel area", _rel(astro.photons_per_band(mag, mask, 2 * ps, t, b), 4 * astro.photons_per_band(mag, mask, ps, t, b)), 1e-9))
         A(("photons_per_mag ~ area", _rel(astro.photons_per_mag(mag, big, ps, 100., t), 4 * astro.photons_per_mag(mag, mask, ps, 100., t)), 1e-9))
         A(("photons_per_mag ~ exposure", _rel(astro.photons_per_mag(mag, mask, ps, 100., s * t), s * astro.photons_per_mag(mag, mask, ps, 100., t)), 1e-9))
+    if mask.sum() > 0:
+        # the composite is the elementary converter times exposure time times area, and inverts back to the magnitude -- in every band
+        worst_b, worst_i = 0.0, 0.0
+        for bb in BANDS:
+            ph = astro.photons_per_band(mag, mask, ps, t, bb)
+            worst_b = max(worst_b, _rel(ph, astro.magnitude_to_flux(mag, bb) * t * mask.sum() * ps ** 2))
+            worst_i = max(worst_i, abs(astro.flux_to_magnitude(ph / (t * mask.sum() * ps ** 2), bb) - mag))
+        A(("photons_per_band = magnitude_to_flux x exposure x area in all 12 bands (Johnson R, I and Sloan r, i are different bands)", worst_b, 1e-12))
+        A(("flux_to_magnitude(photons_per_band / (exposure x area)) = magnitude in all 12 bands", worst_i, 1e-9))
     # slope variance <-> r0 with equal variances: rows +-sqrt(var) alternate => variance exactly var
     var = ac.slope_variance_from_r0(r0, w, d)
     nfr = 2 * inp["nfr2"]
@@ -176,6 +185,12 @@ def property_checks(inp):
     r0l = ac.cn2_to_r0(cn2, lam)
     A(("single layer tau0 = 0.314 r0/v", _rel(ac.coherenceTime(numpy.array([cn2]), numpy.array([v]), lam), 0.314 * r0l / v), 4e-3))
     A(("single layer theta0 = 0.314 r0/h", _rel(ac.isoplanaticAngle(numpy.array([cn2]), numpy.array([h]), lam), 0.314 * r0l / h * 180 * 3600 / numpy.pi), 4e-3))
+    # altitudes / speeds given in whole metres (integer arrays) are the same altitudes / speeds
+    hi_ = numpy.array([int(h) + 7000, 250, 12000 + int(v)], dtype=numpy.int64); ci_ = numpy.array([cn2, 2 * cn2, 0.5 * cn2])
+    for name, f in (("coherenceTime", ac.coherenceTime), ("isoplanaticAngle", ac.isoplanaticAngle), ("rytov_variance", ac.rytov_variance)):
+        for dt in (numpy.int64, numpy.int32):
+            A(("%s with %s altitudes/speeds = the same values as floats" % (name, numpy.dtype(dt).name), _rel(f(ci_, hi_.astype(dt), lam), f(ci_, hi_.astype(float), lam)), 1e-12))
+    A(("single layer theta0 = 0.314 r0/h for an integer altitude", _rel(ac.isoplanaticAngle(numpy.array([cn2]), numpy.array([int(h) + 6300]), lam), 0.314 * r0l / (int(h) + 6300) * 180 * 3600 / numpy.pi), 4e-3))
     # stacked profiles: axis argument == looping
     P = numpy.array(inp["stack"]); H = numpy.array(inp["stack_aux"]); axis = inp["axis"]
     for name, f in (("coherenceTime", ac.coherenceTime), ("isoplanaticAngle", ac.isoplanaticAngle), ("rytov_variance", ac.rytov_variance)):
